@@ -100,7 +100,18 @@ func init() {
 		},
 		"vChoice": func(m *Machine, f *Frame, a []value) (value, bool) {
 			n := m.concInt(a[0].(*Term), true, "vChoice")
-			return m.tb.Const(64, uint64(m.chooseN(n))), true
+			i := m.chooseN(n)
+			if n > 1 {
+				// the chosen alternative is an input of the native replay ("choice#k")
+				k := 0
+				for _, in := range m.inputs {
+					if strings.HasPrefix(in.Name, "choice#") {
+						k++
+					}
+				}
+				m.inputs = append(m.inputs, inputRec{Name: fmt.Sprintf("choice#%d", k), Kind: "choice", t: m.tb.Const(64, uint64(i))})
+			}
+			return m.tb.Const(64, uint64(i)), true
 		},
 		"vConcrete": func(m *Machine, f *Frame, a []value) (value, bool) {
 			t := a[0].(*Term)
@@ -226,6 +237,10 @@ func init() {
 				}
 			}
 			return m.tb.False, true
+		},
+		"vNativeReps": func(m *Machine, f *Frame, a []value) (value, bool) {
+			// repetitions only the native replay needs (e.g. rebuilds under random map order)
+			return m.tb.Const(64, 1), true
 		},
 		"vNativeTrue": func(m *Machine, f *Frame, a []value) (value, bool) {
 			// a condition only the native replay can evaluate (e.g. byte identity of real protobuf output)
